@@ -241,6 +241,12 @@ func (m *Machine) globalAddr(g *ssa.Global) Ptr {
 	if g.Pkg != nil && !m.inited[g.Pkg] && !m.initing[g.Pkg] {
 		m.lazyInit(g.Pkg)
 	}
+	if g.Pkg != nil && !pkgInitAllowed(g.Pkg.Pkg.Path()) && !zeroOKGlobals[g.Pkg.Pkg.Path()+"."+g.Name()] {
+		// a variable of a package whose initialiser is not interpreted: its real value is
+		// unknown to the engine, so reading it would be unsound
+		delete(m.globals, g)
+		m.unsupported("global %s.%s belongs to a package whose initialiser is not interpreted", g.Pkg.Pkg.Path(), g.Name())
+	}
 	return p
 }
 
@@ -747,3 +753,8 @@ func (m *Machine) callValue(fr *frame, fnv Value, args []Value, site ssa.CallIns
 }
 
 var _ = os.Stderr
+
+// globals of uninterpreted packages whose zero value is their real initial value
+var zeroOKGlobals = map[string]bool{
+	"errors.errorType": true,
+}
